@@ -11,7 +11,7 @@ func main() {
 	core.Main("C02", "exploration", func(c *core.Ctx) {
 		c.SetRule("same engine and case space as C01 (real pipeline in child processes under -race); oracle: per (source, stream name as seen by the input's Commit) strictly increasing offsets, no event committed twice, commit stream = read stream, and at idle (pool in-use 0) every accepted event has exactly one commit or exactly one silent drop; distinct = configuration class × observed phenomena; non-trivial = at least one event accepted and the run decided")
 		c.Assume("idle = readers finished and the pool's in-use count 0 for three consecutive samples")
-		pipemon.RunProperty(c, "C02", pipemon.Plan{"mix": {40, 900}, "dlq": {12, 250}, "hold": {10, 250}, "directed": {12, 240}}, true, nil)
+		pipemon.RunProperty(c, "C02", pipemon.Plan{"mix": {40, 900}, "dlq": {12, 250}, "hold": {10, 250}, "directed": {18, 240}}, true, nil)
 		if c.Counter("committed") == 0 || c.Counter("dropped") == 0 {
 			c.Fatal("commits or silent drops never observed")
 		}
